@@ -770,7 +770,7 @@ func checkC12(c *Ctx) {
 	c.Cov.Rule = "scenario = prepared MapPollard state (full/partial, zombie roots, climbed leaves, several TotalRows) x writer program (Modify with deletions and additions crossing a power of two, Modify+Undo, Verify(remember), VerifyPartialProof(remember), Ingest, Prune, Read of another state's bytes, and programs that start with rejected calls - wrong hash, missing proof - so that error paths release the lock) x reader programs (one or two queries on one or two threads from GetRoots, GetStump, Prove, Verify, GetLeafPosition, GetLeafHashPositions, GetHash, GetMissingPositions, GetNumLeaves, GetTreeRows, Write); for every scenario every schedule with at most `bound` preemptions is executed on the real code under a cooperative scheduler whose points are thread start/end, every RWMutex operation, every Nodes/CachedLeaves access and every sink write; oracle per execution: no panic, no deadlock, lock discipline at every map access, every query result equal to the sequential result in a whole-block state admissible for its call/return interval with a consistent order (brute force), final state equal to the sequential post-state; plus a separate free-running -race pass over the same scenarios; states = scenarios, transitions = executions (schedules), non-trivial = executions with at least one preemption"
 	c.Cov.Bound["preemption_bound"] = bound
 	c.Cov.Bound["scenarios"] = len(scs)
-	perScenarioCap := int64(pick(c, 60000, 600000))
+	perScenarioCap := int64(pick(c, 100000, 5000000))
 	var execs, nontriv int64
 	outcomes := make([]int, len(scs))
 	var cappedN int32
